@@ -2,20 +2,35 @@ HOOKS = {
     "guard": "fuse_backend_rs_verif",
     "enable": "RUSTFLAGS='--cfg fuse_backend_rs_verif' (set in /verif/harness/.cargo/config.toml; the harness is a path-dependent crate on /repo)",
     "baseline_off_cmd": "cd /repo && cargo nextest run --workspace --no-fail-fast --test-threads 8 --offline || cargo test --workspace --no-fail-fast --offline",
-    "source_commits": [],
+    "source_commits": ["ed1647a verif hook: H2 verif_table_sizes() (passthrough/mod.rs, inode_store.rs, mount_fd.rs)", "d1dd73e verif hook: H1 verif_yield(point) / verif_set_yield (passthrough/mod.rs)"],
     "add_only": True,
 }
 ENGINES = [
+    {"name": "ptrefs", "path": "lean/Fbr/PtRefs.lean lean/Fbr/PtSpec.lean lean/Fbr/PtRefsShow.lean lean/Fbr/Lemmas/Pt*.lean lean/Fbr/Lemmas/Pack.lean lean/Drv/PtRefs.lean harness/src/bin/ptrefs.rs",
+     "serves_properties": ["C08", "C15"],
+     "kind_free_text": "Lean 4 model of the passthrough inode table / handle table / mount-fd count / descriptor ledger with theorems by induction over request histories (refinement to a client-side ledger, ledger invariant under any fault oracle); differential harness driving the real PassthroughFs through whole histories on a temp dir under {inode_file_handles}x{use_host_ino}x{no_open}x{no_opendir}, getattr probes on every number ever seen, H2 table sizes, /proc/self/fd counts, EMFILE injection by RLIMIT_NOFILE headroom"},
+    {"name": "conc", "path": "lean/Fbr/Conc.lean lean/Fbr/ConcShow.lean lean/Fbr/Lemmas/Conc*.lean lean/Drv/Conc.lean harness/src/bin/conc.rs",
+     "serves_properties": ["C09"],
+     "kind_free_text": "Lean 4 small-step model of concurrent do_lookup/forget_one with an invariant proved for any number of threads and any schedule; schedule-replay harness over hook H1 (threads parked at yield points, one released per step), random and exhaustive schedules"},
     {"name": "xport", "path": "lean/Fbr/Xport.lean lean/Fbr/XportSys.lean lean/Fbr/XportSpec.lean lean/Fbr/Lemmas/Xport*.lean lean/Drv/Xport.lean harness/src/bin/xport.rs harness/src/xscript.rs harness/src/vq.rs",
      "serves_properties": ["C04", "C17"],
      "kind_free_text": "Lean 4 model of IoBuffers/Reader/VirtioFsWriter/FuseDevWriter/FileVolatileSlice and the dirty bitmap, refined to a flat address list + cursor, with invariants proved over arbitrary operation lists; differential harness over mock virtqueue chains in GuestMemoryMmap<AtomicBitmap> (page sizes 2/64/4096), a SOCK_SEQPACKET stand-in for /dev/fuse and scripted files with short counts"},
-    {"name": "srv", "path": "lean/Fbr/Wire.lean lean/Fbr/Srv.lean lean/Fbr/SrvAsync.lean lean/Fbr/SrvShow.lean lean/Fbr/SrvSpec.lean lean/Fbr/Lemmas/Srv*.lean lean/Fbr/Lemmas/Wire.lean lean/Drv/Srv.lean lean/Drv/SrvAsync.lean harness/src/bin/srv.rs harness/src/scriptfs*.rs harness/src/srvgen.rs harness/src/srvoracle.rs harness/src/vq.rs",
+    {"name": "srv", "path": "lean/Fbr/Wire.lean lean/Fbr/Srv.lean lean/Fbr/SrvAsync.lean lean/Fbr/SrvShow.lean lean/Fbr/SrvSpec.lean lean/Fbr/Lemmas/Srv*.lean lean/Fbr/Lemmas/Wire.lean lean/Drv/Srv.lean lean/Drv/SrvAsync.lean harness/src/bin/srv.rs harness/src/bin/initfs.rs lean/Fbr/InitFs.lean lean/Drv/InitFs.lean harness/src/scriptfs*.rs harness/src/srvgen.rs harness/src/srvoracle.rs harness/src/vq.rs",
      "serves_properties": ["C01", "C02", "C03", "C12", "C20"],
      "kind_free_text": "Lean 4 model of Server::handle_message / async_handle_message with invariant, decode, encode and equivalence theorems; differential harness over both transports with a scripted logging file system and independent request encoders / reply decoders"},
     {"name": "ptdir", "path": "lean/Fbr/PtDir*.lean lean/Fbr/Lemmas/PtDir*.lean lean/Drv/PtDir.lean harness/src/bin/ptdir.rs",
      "serves_properties": ["C16"], "kind_free_text": "Lean 4 model of passthrough/pseudo readdir with cookie cache; differential harness on real directories"},
     {"name": "ptseal", "path": "lean/Fbr/PtSeal*.lean lean/Fbr/Lemmas/PtSeal*.lean lean/Drv/PtSeal.lean harness/src/bin/ptseal.rs",
      "serves_properties": ["C18"], "kind_free_text": "Lean 4 model of the size-seal checks over a reference host; differential harness on real files"},
+    {"name": "vfs", "path": "lean/Fbr/Vfs.lean lean/Fbr/Persist.lean lean/Fbr/VfsShow.lean lean/Fbr/Lemmas/Vfs*.lean lean/Drv/Vfs.lean harness/src/vfsrun.rs harness/src/bin/vfs.rs",
+     "serves_properties": ["C07", "C14", "C19"],
+     "kind_free_text": "Lean 4 model of the Vfs mount table, pseudo tree, id mapping, init/destroy, all request methods and save/restore, with invariants proved over arbitrary histories; differential harness running whole mount/umount/request/save/restore histories on the real Vfs (a third of the requests through Server::handle_message) with scripted logging backends"},
+    {"name": "ovl", "path": "lean/Fbr/Ovl.lean lean/Fbr/OvlShow.lean lean/Fbr/Lemmas/Ovl*.lean lean/Drv/Ovl.lean harness/src/ovlhost.rs harness/src/bin/ovl.rs",
+     "serves_properties": ["C10", "C11"],
+     "kind_free_text": "Lean 4 model of OverlayFs (layers as path functions, merge specification, lazy directory loading, copy-up, whiteouts, opaque markers) with theorems over every disk and operation history; differential harness running histories on the real OverlayFs over PassthroughFs layers in temp directories, walking live and freshly constructed instances"},
+    {"name": "pthost", "path": "lean/Fbr/Host.lean lean/Fbr/HostRef.lean lean/Fbr/PtHost*.lean lean/Fbr/Lemmas/HostRef*.lean lean/Fbr/Lemmas/PtHost*.lean lean/Drv/PtHost.lean harness/src/pthost/ harness/src/bin/pthost.rs",
+     "serves_properties": ["C05", "C06"],
+     "kind_free_text": "Lean 4 transducer model of PassthroughFs (request -> host calls -> reply) over a reference host file system with symlinks and an export inside a sentinel tree; theorems for every request and every reference-host state; differential harness on real directories, ptrace-free syscall comparison through observable effects"},
     {"name": "abi", "path": "lean/Fbr/Abi.lean lean/Fbr/AbiSpec.lean lean/Fbr/Conv.lean lean/Drv/Abi.lean harness/src/bin/abi_probe.rs translator/ tools/kernel_abi.py",
      "serves_properties": ["C13"],
      "kind_free_text": "Lean 4 theorems over tables regenerated from source (syn translator) and from the kernel header (C compiler); differential run of rustc's layouts / real conversion functions against the Lean model"},
